@@ -377,6 +377,9 @@ func getEnv(backend string, shadow bool) (*dbEnv, error) {
 		if initErr != nil {
 			return
 		}
+		// fstree stages its writes in os.TempDir() if that is on the same mount: keep that on the memory file system too
+		_ = os.MkdirAll(filepath.Join(rootDir, "tmp"), 0o755)
+		_ = os.Setenv("TMPDIR", filepath.Join(rootDir, "tmp"))
 		initErr = database.InitializeWithPath(rootDir)
 	})
 	if initErr != nil {
@@ -399,6 +402,9 @@ func getEnv(backend string, shadow bool) (*dbEnv, error) {
 		return nil, err
 	}
 	e := &dbEnv{backend: backend, shadow: shadow, name: name, ctrl: ctrl, st: ctrl.VerifStorage()}
+	if b, ok := e.st.(*bbolt.BBolt); ok {
+		b.VerifNoBatchDelay()
+	}
 	envs[name] = e
 	return e, nil
 }
@@ -674,21 +680,45 @@ func buildOps(cfg config, quick bool) []opDef {
 	if !quick {
 		variants = append(variants, putVariant{"c1,wrapped", 0, false}, putVariant{"c2,typed", 1, true})
 	}
+	variants = append(variants, putVariant{"c1,typed,expires=now+10", 0, true})
 	for _, k := range keys {
 		for _, v := range variants {
 			k, v := k, v
+			withExpiry := strings.Contains(v.name, "expires")
 			add(opDef{name: "Put(" + k + "," + v.name + ")", kind: "Put", mutates: true,
 				run: func(x *exec) result {
-					return errResult(x.iface.Put(mkRecord(x.env.name, k, contents[v.ci], v.typed, nil)))
+					var pre *meta
+					if withExpiry {
+						pre = &meta{E: x.now + 10} // the caller has called Meta().SetAbsoluteExpiry before Put
+					}
+					return errResult(x.iface.Put(mkRecord(x.env.name, k, contents[v.ci], v.typed, pre)))
 				},
 				ref: func(m *model) result {
 					e := &entry{c: contents[v.ci]}
+					if withExpiry {
+						e.m.E = m.now + 10
+					}
 					e.m.update(m.now)
 					m.recs[k] = e
 					m.dirty = true
 					return result{cls: "ok"}
 				}})
 		}
+	}
+	for _, k := range keys {
+		k := k
+		// a record that is already marked deleted (how callers delete a record they hold: Meta().Delete(), then Put)
+		add(opDef{name: "Put(" + k + ",c1,wrapped,deleted)", kind: "PutDeleted", mutates: true, needClean: true,
+			run: func(x *exec) result {
+				pre := &meta{C: x.now - 30, M: x.now - 20, D: x.now - 20}
+				return errResult(x.iface.Put(mkRecord(x.env.name, k, contents[0], false, pre)))
+			},
+			ref: func(m *model) result {
+				e := &entry{c: contents[0], m: meta{C: m.now - 30, M: m.now - 20, D: m.now - 20}}
+				e.m.update(m.now)
+				m.recs[k] = e
+				return result{cls: "ok"}
+			}})
 	}
 	for i, k := range keys {
 		k := k
@@ -870,6 +900,10 @@ func buildOps(cfg config, quick bool) []opDef {
 		ref: func(m *model) result { return result{cls: "ok"} }})
 	// --- flush of delayed writes: one DelayedCacheWriter run that is ended by its context
 	if cfg.Cache == "delayed" {
+		// the exported flush; the step runner checks that no delayed write is left pending
+		add(opDef{name: "FlushCache", kind: "FlushCache",
+			run: func(x *exec) result { x.iface.FlushCache(); return result{cls: "ok"} },
+			ref: func(m *model) result { m.dirty = false; return result{cls: "ok"} }})
 		add(opDef{name: "Flush", kind: "Flush",
 			run: func(x *exec) result { return errResult(flush(x.iface)) },
 			ref: func(m *model) result { m.dirty = false; return result{cls: "ok"} }})
@@ -896,6 +930,14 @@ type witness struct {
 	Config  config   `json:"config"`
 	Seed    string   `json:"seed"`
 	History []string `json:"history"`
+}
+
+// anyWitness is what a replay file may hold: a history witness or a scenario witness.
+type anyWitness struct {
+	witness
+	Scenario string `json:"scenario"`
+	N        int    `json:"n"`
+	Variant  string `json:"variant"`
 }
 
 type violation struct {
@@ -1020,6 +1062,13 @@ func runHistory(cfg config, seed seedDef, ops []opDef, hist []int, wantKey, verb
 			out.viol = &violation{"operation-result-equals-model", layer + ":" + o.kind, d,
 				fmt.Sprintf("step %d %s returned %v, the reference map says %v (model before probe: %s)", step+1, o.name, got, want, m.dump())}
 			return
+		}
+		if o.kind == "FlushCache" {
+			if n := len(x.iface.VerifWriteCache()); n > 0 {
+				out.viol = &violation{"flush-writes-delayed-records", layer + ":FlushCache", "records-still-pending",
+					fmt.Sprintf("step %d FlushCache returned, but %d delayed write(s) are still pending (not written to the storage)", step+1, n)}
+				return
+			}
 		}
 		if isMaint {
 			after, err := env.raw()
@@ -1234,6 +1283,8 @@ type levelFile struct {
 	Depth  int    `json:"depth"`
 	Last   bool   `json:"last"`   // deepest level: successors are checked, their states not reported
 	Extend bool   `json:"extend"` // false: run the nodes' own histories (roots)
+	Chunk  int    `json:"chunk"`  // nodes per claimed work item
+	Max    int    `json:"max"`    // history depth of this run
 	Nodes  []node `json:"nodes"`
 }
 
@@ -1244,7 +1295,6 @@ type succ struct {
 	NT   bool   `json:"t,omitempty"`
 }
 
-const chunk = 16
 
 func applicable(o opDef, cfg config, dirty bool) bool {
 	return !(cfg.Cache == "delayed" && o.needClean && dirty)
@@ -1257,7 +1307,7 @@ func dirtyAfter(ops []opDef, hist []int) bool {
 		switch ops[oi].kind {
 		case "Put", "PutNew", "Resave":
 			d = true
-		case "Flush":
+		case "Flush", "FlushCache":
 			d = false
 		}
 	}
@@ -1275,9 +1325,16 @@ func report(c *vlib.Ctx, cfg config, seed seedDef, ops []opDef, hist []int, v *v
 	}
 	site := v.site
 	detail := fmt.Sprintf("configuration %v, initial storage %s, history %v: %s", cfg, seed.name, names, v.detail)
-	if cfg.Cache != "none" {
-		// attribute the violation: does the same history also fail without a cache?
-		plain := config{cfg.Backend, cfg.Shadow, "none"}
+	// attribute the violation to the simplest cache mode in which the same history (without flushes) fails in the same clause
+	var simpler []string
+	switch cfg.Cache {
+	case "delayed":
+		simpler = []string{"none", "read"}
+	case "read":
+		simpler = []string{"none"}
+	}
+	for _, cm := range simpler {
+		plain := config{cfg.Backend, cfg.Shadow, cm}
 		pops := opsFor(plain)
 		byName := map[string]int{}
 		for i, o := range pops {
@@ -1286,6 +1343,9 @@ func report(c *vlib.Ctx, cfg config, seed seedDef, ops []opDef, hist []int, v *v
 		var ph []int
 		okAll := true
 		for _, n := range names {
+			if n == "Flush" || n == "FlushCache" {
+				continue
+			}
 			i, ok := byName[n]
 			if !ok {
 				okAll = false
@@ -1293,11 +1353,13 @@ func report(c *vlib.Ctx, cfg config, seed seedDef, ops []opDef, hist []int, v *v
 			}
 			ph = append(ph, i)
 		}
-		if okAll {
-			if r := runHistory(plain, seed, pops, ph, false, false); r.viol != nil && r.viol.clause == v.clause {
-				site = r.viol.site
-				detail += " [the same history fails without a cache too: attributed to the backend]"
-			}
+		if !okAll {
+			continue
+		}
+		if r := runHistory(plain, seed, pops, ph, false, false); r.viol != nil && r.viol.clause == v.clause {
+			site = r.viol.site
+			detail += fmt.Sprintf(" [the same history fails with cache mode %q too: attributed to that layer]", cm)
+			break
 		}
 	}
 	c.Violate(v.clause, site, v.disc, detail, witness{cfg, seed.name, names})
@@ -1317,6 +1379,10 @@ func shardWork(c *vlib.Ctx, cfgs []config, opsFor func(config) []opDef) {
 	var out []succ
 	outcomes := map[string]int64{}
 	var transitions int64
+	chunk := lf.Chunk
+	if chunk < 1 {
+		chunk = 1
+	}
 	nChunks := (len(lf.Nodes) + chunk - 1) / chunk
 	complete := true
 	for ci := 0; ci < nChunks; ci++ {
@@ -1342,6 +1408,8 @@ func shardWork(c *vlib.Ctx, cfgs []config, opsFor func(config) []opDef) {
 				out = append(out, succ{ni, -1, r.key, r.nontriv})
 				continue
 			}
+			// badger is slow (about 1 ms per transaction): its histories end one step earlier
+			last := lf.Last || (cfg.Backend == "badger" && lf.Depth >= lf.Max-1)
 			dirty := dirtyAfter(ops, nd.Hist)
 			h := append(append(make([]int, 0, len(nd.Hist)+1), nd.Hist...), 0)
 			for oi, o := range ops {
@@ -1349,7 +1417,7 @@ func shardWork(c *vlib.Ctx, cfgs []config, opsFor func(config) []opDef) {
 					continue
 				}
 				h[len(h)-1] = oi
-				r := runHistory(cfg, seed, ops, h, !lf.Last, false)
+				r := runHistory(cfg, seed, ops, h, !last, false)
 				transitions++
 				if r.viol != nil {
 					outcomes["violation"]++
@@ -1357,13 +1425,15 @@ func shardWork(c *vlib.Ctx, cfgs []config, opsFor func(config) []opDef) {
 					continue
 				}
 				outcomes[r.outcome]++
-				if !lf.Last {
+				if !last {
 					out = append(out, succ{ni, oi, r.key, r.nontriv})
 				}
 			}
 		}
 	}
-	_ = complete
+	if !complete {
+		_ = os.WriteFile(filepath.Join(*flagSucc, fmt.Sprintf("incomplete-%d", c.Shard)), nil, 0o644)
+	}
 	for k, v := range outcomes {
 		c.OutcomeN(k, v)
 	}
@@ -1404,7 +1474,8 @@ func main() {
 			if o, ok := opsCache[k]; ok {
 				return o
 			}
-			o := buildOps(cf, c.Quick())
+			// replays always use the full alphabet (a superset with stable names)
+			o := buildOps(cf, c.Quick() && c.Replay == "")
 			opsCache[k] = o
 			return o
 		}
@@ -1417,9 +1488,10 @@ func main() {
 		}
 
 		c.Rule("breadth-first search over histories of database.Interface operations on the real code, per configuration backend {hashmap,bbolt,fstree; thorough: badger} x shadow-delete {off,on} x cache {none, read cache size 2, delayed write cache size 2 (hashmap, bbolt)} and per initial storage content (empty, one live, one shadow-deleted, one expired record; thorough: one with relative expiry); " +
-			"alphabet per configuration: Get, Put (typed struct / wrapped JSON twins, 2 contents), PutNew (record with stale metadata), Resave (Get then Put of the same object), Delete, SetAbsoluteExpiry (past, +10 s), SetRelativateExpiry(10), PutMany (2 batches of two records, one deleted), Purge (2 queries), 10 s / 20 s pass on the manual clock, MaintainRecordStates (threshold now / now-15 s), Maintain, Flush (delayed writes only) over 4 keys sharing prefixes and a path separator; " +
+			"alphabet per configuration: Get, Put (typed struct / wrapped JSON twins, 2 contents), PutNew (record with stale metadata), Resave (Get then Put of the same object), Delete, SetAbsoluteExpiry (past, +10 s), SetRelativateExpiry(10), PutMany (2 batches of two records, one deleted), Purge (2 queries), 10 s / 20 s pass on the manual clock, MaintainRecordStates (threshold now / now-15 s), Maintain, FlushCache and Flush = one DelayedCacheWriter run ended by its context (delayed writes only), Put of an already deleted record over 4 keys sharing prefixes and a path separator; " +
 			"every history runs on a wiped database through a fresh Interface and on a map[string]entry model; after the last step Exists+Get of all 4 keys and 19 queries (5 key prefixes; all 18 operators; and/or/not nested to depth 2) are compared; states de-duplicated on (model, raw storage dump, ARC cache lists and entries, delayed write set); " +
-			"non-trivial = distinct reached states holding at least two records or at least one deleted/expired record")
+			"non-trivial = distinct reached states holding at least two records or at least one deleted/expired record. "+
+			"Plus two scenario families: bulk (N records in mixed states, N around bbolt's purge batch size 1000 and up to several B+tree pages, then Purge by prefix / by condition or MaintainRecordStates, compared with the model) and storage-error (a query that meets an unreadable raw record must end its stream and report through Iterator.Err())")
 		c.Assume("metadata semantics are those documented in record/meta.go: a save stamps Modified (and Created if unset) and recomputes Expires from a relative TTL; a TTL set through Interface.SetRelativateExpiry therefore takes effect at the next save (not asserted otherwise); a record is expired when now > Expires")
 		c.Assume("a backend that does not implement Purge / PutMany and answers ErrNotImplemented is taken as 'operation not offered' (no effect in the model); the count returned by Purge may or may not include expired records that were not yet deleted")
 		c.Assume("databases are reused between histories by wiping all records (hashmap: new map; bbolt: bucket dropped and re-created; fstree: directory emptied; badger: all keys deleted); the read cache's clock is replaced by the manual clock so that cache TTLs and record expiry run on the same clock, as they do in production")
@@ -1452,9 +1524,12 @@ func main() {
 		}
 		perCfgStates := map[string]int{}
 		depthDone := -1
-		sampleEvery := 1
+		sampleEvery := 7
 		for depth := 0; depth <= maxDepth && len(frontier) > 0; depth++ {
-			lf := levelFile{Depth: depth, Last: depth == maxDepth, Extend: depth > 0, Nodes: frontier}
+			lf := levelFile{Depth: depth, Last: depth == maxDepth, Extend: depth > 0, Nodes: frontier, Chunk: len(frontier) / (8 * c.Workers), Max: maxDepth}
+			if lf.Chunk > 16 {
+				lf.Chunk = 16
+			}
 			lb, _ := json.Marshal(lf)
 			lpath := filepath.Join(workDir, fmt.Sprintf("level-%d.json", depth))
 			sdir := filepath.Join(workDir, fmt.Sprintf("succ-%d", depth))
@@ -1520,7 +1595,8 @@ func main() {
 					c.Sample(map[string]any{"configuration": cfgs[nd.Cfg].String(), "initial_storage": seeds[nd.Seed].name, "history": names})
 				}
 			}
-			expired := time.Now().After(started) && c.Expired()
+			inc, _ := filepath.Glob(filepath.Join(sdir, "incomplete-*"))
+			expired := len(inc) > 0
 			fmt.Printf("depth %d: %d nodes expanded in %.1fs, %d new states (total %d)%s\n", depth, len(frontier), time.Since(started).Seconds(), len(next), len(seen),
 				map[bool]string{true: " [budget reached]", false: ""}[expired])
 			if expired {
@@ -1533,6 +1609,8 @@ func main() {
 			}
 		}
 		c.Add(int64(len(seen)), 0, 0)
+		watchdog()
+		runScenarios(c, cfgs)
 		c.Extra("max_depth_completed", depthDone)
 		c.Extra("configurations", len(cfgs))
 		c.Extra("initial_storages", nSeeds)
@@ -1548,11 +1626,16 @@ func main() {
 }
 
 func replay(c *vlib.Ctx, opsFor func(config) []opDef) {
-	var w witness
-	if _, err := c.LoadReplay(&w); err != nil {
+	var aw anyWitness
+	if _, err := c.LoadReplay(&aw); err != nil {
 		c.EngineError("replay: %v", err)
 		return
 	}
+	if aw.Scenario != "" {
+		replayScenario(c, scenarioWitness{aw.Scenario, aw.Config, aw.N, aw.Variant})
+		return
+	}
+	w := aw.witness
 	ops := opsFor(w.Config)
 	byName := map[string]int{}
 	for i, o := range ops {
